@@ -37,6 +37,17 @@ def spVerify1 : List String → String
     | _, _, _, _, _, _ => "bad-op"
   | _ => "bad-op"
 
+/-- `sp-leafindex filesize windowIDhex fcidhex` → `ok <index>` / `panic` (State.StorageProofLeafIndex) -/
+def spLeafIndex : List String → String
+  | [fs, w, f] => match fs.toNat?, unhex w, unhex f with
+    | some fs, some w, some f =>
+      if w.size ≠ 32 ∨ f.size ≠ 32 ∨ fs ≥ 18446744073709551616 then "bad-op" else
+      match storageProofLeafIndex blake2b256 fs w f with
+      | .ok i => s!"ok {i}"
+      | .error _ => "panic"
+    | _, _, _ => "bad-op"
+  | _ => "bad-op"
+
 /-- `sp-verify2 index filesize leaf64hex proof root` → verdict of the v2 check -/
 def spVerify2 : List String → String
   | [i, fs, l, p, r] => match i.toNat?, fs.toNat?, unhex l, hashList p, hash1 r with
@@ -60,6 +71,7 @@ def spOps : List (String × (List String → String)) := [
   ("sp-proofroot", spProofRoot),
   ("sp-verify1", spVerify1),
   ("sp-verify2", spVerify2),
+  ("sp-leafindex", spLeafIndex),
   ("sp-prove", spProve)]
 
 end Sia.Driver
